@@ -515,15 +515,26 @@ func ruleGxzDataSafety(c *Ctx, r *Report, prefix string) {
 				n++
 				res := sp.Rets[0]
 				resolveWith = sp.P
+				// x + "" is x (a helper that appends a replacement suffix, called with none)
+				for {
+					bo, ok := rv(res).(*ssa.BinOp)
+					if !ok || bo.Op != token.ADD {
+						break
+					}
+					if s, isS := constString(rv(bo.Y)); !isS || s != "" {
+						break
+					}
+					res = bo.X
+				}
 				switch {
-				case res == pathP:
+				case res == pathP || rv(res) == pathP:
 					r.Fail(rule, key+":target-is-input", c.InstrPos(sp.Exit), "targetName can return its path argument unchanged with a nil error: the output would be renamed over the input and the input path removed afterwards", sp.Trace...)
 					bad = true
 				case isPathPlusNonEmpty(res, pathP):
 				case isSuffixRemoval(res, pathP):
 				default:
-					if bo, ok := res.(*ssa.BinOp); ok && bo.Op == token.ADD && isSuffixRemoval(bo.X, pathP) {
-						if s, isS := constString(bo.Y); isS && s != "" {
+					if bo, ok := rv(res).(*ssa.BinOp); ok && bo.Op == token.ADD && isSuffixRemoval(bo.X, pathP) {
+						if s, isS := constString(rv(bo.Y)); isS && s != "" {
 							resolveWith = nil
 							continue
 						}
@@ -824,18 +835,17 @@ func ruleGxzFlags(c *Ctx, r *Report, prefix string) {
 		r.Check(okFlow, rule, "perm-flow", c.Pos(perm.Pos()), "os.OpenFile's mode is r.Perm()", "the mode given to os.OpenFile is not r.Perm() of the input")
 	}
 	// format sniffing accepts every dictionary size xz-utils can write (2^n and 2^n + 2^(n-1))
-	if vd := c.Func("lzma", "validDictCap"); vd != nil {
+	if vd, evalVD := validDictCapEval(c); vd != nil {
 		bad, n := 0, 0
 		try := func(v int64, want bool) {
 			n++
-			in := NewInterp(c)
-			res := in.Call(vd, []aval{aInt(v, types.Typ[types.Int])})
-			if !res.OK || len(res.Rets) != 1 {
-				r.Undecided(rule, fmt.Sprintf("validDictCap(%d)", v), c.Pos(vd.Pos()), "cannot evaluate: "+in.Undecided)
+			got, ok := evalVD(v)
+			if !ok {
+				r.Undecided(rule, fmt.Sprintf("validDictCap(%d)", v), c.Pos(vd.Pos()), "cannot evaluate")
 				bad++
 				return
 			}
-			if got, _ := res.Rets[0].Bool(); got != want && want {
+			if got != want && want {
 				r.Fail(rule, fmt.Sprintf("validDictCap(%d)", v), c.Pos(vd.Pos()), fmt.Sprintf("dictionary size %d (2^n or 2^n+2^(n-1), as written by xz-utils) is not accepted by lzma.ValidHeader: gxz -d would reject the file as 'format not recognized'", v))
 				bad++
 			}
